@@ -39,6 +39,10 @@ VALGRIND = [
     ("load", ["load", "prop=C14", "inputs=8000"]),
     ("wire", ["wire", "prop=C18", "aux=1", "random=600", "sessions=300"]),
     ("systemd", ["systemd", "prop=C17", "aux=1", "random=20000"]),
+    # the real driver over pipes (two threads, interposed read/write/epoll_wait); the scripted part is kept tiny
+    ("realdrv", ["loop", "prop=C10", "layouts=5", "schedules=1", "realdrv=600"]),
+    ("realdrv-tablet", ["loop", "prop=C12", "layouts=5", "schedules=1", "realdrv=400"]),
+    ("realdrv-faults", ["loop", "prop=C20", "layouts=5", "schedules=1", "realdrv=12"]),
 ]
 
 
